@@ -251,13 +251,53 @@ def _gen_request(rng, pts, tms):
     return {"mode": which, "arg": rng.choice([1, 2, 3, 0.5]), "entry": "method"}
 
 
+def _gen_scale(rng):
+    """A long track (hundreds / thousands of fixes) and a request for hundreds / thousands of instants or steps: a
+    1 Hz list or reference track that starts before the track and may outlast it, a small numeric interval or step."""
+    n = rng.choice([300, 700, 1500])
+    steps = [1000 if rng.random() < 0.8 else rng.choice([500, 2000, 3000, 1, 250]) for _ in range(n - 1)]
+    base = gen.ms_from_fields(2024, 5, 17, 8, rng.randint(0, 59), rng.randint(0, 59), rng.choice([0, 0, 250, 500]))
+    tms = [base]
+    for st in steps:
+        tms.append(tms[-1] + st)
+    pts = [[rng.uniform(-100, 100), rng.uniform(-100, 100), rng.uniform(0, 20)]]
+    for i in range(1, n):
+        reach = 0.01 + 15.0 * steps[i - 1] / 1000.0
+        if rng.random() < 0.05:
+            pts.append(list(pts[-1]))
+        else:
+            pts.append([pts[-1][0] + rng.uniform(-reach, reach), pts[-1][1] + rng.uniform(-reach, reach),
+                        pts[-1][2] + rng.uniform(-1, 1)])
+    D, L = tms[-1] - tms[0], _len2d(pts)
+    mode = rng.choice(["T-list", "T-track", "T-track", "T-num", "S"])
+    entry = "method" if rng.random() < 0.7 else "func"
+    if mode in ("T-list", "T-track"):
+        start = tms[0] - rng.randint(0, 100) * 1000 + rng.choice([0, 0, 137, 500])
+        m = rng.choice([520, 900, 1700, 3000])
+        req = [start + k * 1000 for k in range(m)]
+        return pts, tms, {"mode": mode, "arg": req, "entry": entry, "scale": 1}
+    if mode == "T-num":
+        return pts, tms, {"mode": mode, "arg": D / 1000.0 / rng.randint(600, 1900), "entry": entry, "scale": 1}
+    return pts, tms, {"mode": "S", "arg": L / rng.uniform(600, 1900), "entry": entry, "sub": "random", "scale": 1}
+
+
 def cases(chunk):
     rng = gen.rng_for(PROP, chunk)
+    nscale = 3 if chunk["n"] <= 2500 else 12
     for _ in range(chunk["n"]):
+        if _ % (chunk["n"] // nscale) == 5:
+            pts, tms, req = _gen_scale(rng)
+            c = {"pts": pts, "tms": tms}
+            c.update(req)
+            yield c
+            continue
         pts, tms = _gen_track(rng)
         req = _gen_request(rng, pts, tms)
         c = {"pts": pts, "tms": tms}
         c.update(req)
+        if req["mode"] in ("T-num", "S") and rng.random() < 0.15:
+            # the interval / step held as a numpy scalar (taken out of an array)
+            c["arg_type"] = "numpy.int64" if isinstance(req["arg"], int) else "numpy.float64"
         # call history before the resampling: the track may carry features computed on an earlier geometry
         r = rng.random()
         if r < 0.12:
@@ -544,7 +584,7 @@ def run_case(case, ctx):
     if mode == "T-num":
         if not (isinstance(arg, (int, float)) and not isinstance(arg, bool) and arg > 0):
             return ood("interval must be a positive number")
-        if D / (arg * 1000.0) > 2000:
+        if D / (arg * 1000.0) > 2000 and not case.get("scale"):
             return ood("interval yields more than 2000 samples")
         call_arg = arg
         q_ms = arg * 1000.0
@@ -590,6 +630,12 @@ def run_case(case, ctx):
     else:
         raise M.HarnessError("unknown mode %r" % mode)
 
+    if case.get("arg_type") and mode in ("T-num", "S"):
+        import numpy as np
+        call_arg = np.int64(arg) if case["arg_type"] == "numpy.int64" else np.float64(arg)
+        cls.add("step_given_as_numpy_scalar")
+    if case.get("scale"):
+        cls.add("scale_hundreds_of_fixes_and_instants")
     # ---- alternative front end and error path: sample(track, instant) is temporal linear resampling on one instant.
     # An instant inside the range is judged; instants outside the range are requests that cannot be honoured
     # (whatever they do is not judged) -- the resampling below runs on the same track object afterwards.
@@ -638,9 +684,12 @@ def run_case(case, ctx):
     # ---- the step actually used (observed, not recomputed)
     delta_used = None
     if mode in ("T-num", "S") or mode.endswith("npts") or mode.endswith("factor"):
-        nums = [d for d in _seen_delta if isinstance(d, (int, float)) and not isinstance(d, bool)]
+        import numbers
+        nums = [d for d in _seen_delta if isinstance(d, numbers.Real) and not isinstance(d, bool)]
         if nums:
             delta_used = nums[-1]
+            if type(delta_used).__module__ == "numpy":
+                delta_used = delta_used.item()
         if mode in ("T-num", "S") and delta_used is not None and delta_used != arg:
             raise M.HarnessError("recorded step %r differs from the one passed %r" % (delta_used, arg))
         if delta_used is not None and not (delta_used > 0) :
@@ -713,7 +762,8 @@ def classify(case, witness):
 _floors_base = floors
 _FLOORS_EXTRA = {'counters': {'numeric_step_lands_exactly_on_last': 50},
                  'monitors': {'temporal.same_reference_second_track': 1000, 'sample.single_instant': 1000},
-                 'classes': {'floordiv_operator': 300}}
+                 'classes': {'floordiv_operator': 300, 'step_given_as_numpy_scalar': 500,
+                             'scale_hundreds_of_fixes_and_instants': 30}}
 
 
 def floors(tier):
